@@ -24,7 +24,8 @@ Inductive lop :=
 | LIterMut (k : nat) (m : lmut)
 with lmut := MuAppend (v : json) | MuDel (i : Z) | MuPop (i : Z) | MuSet (i : Z) (v : json).
 
-Record lcase := { l_id : nat; l_items : list json; l_ops : list lop }.
+(* l_partial: the converter to_wrapped_value raises Boom(7) on strings (a converter need not be total) *)
+Record lcase := { l_id : nat; l_items : list json; l_ops : list lop; l_partial : bool }.
 
 Definition idj (x : json) : json := x.
 
@@ -36,24 +37,33 @@ Definition apply_mut (data : list json) (m : lmut) : list json :=
   | MuSet i v => match dl_setitem json json idj data i v with Ok l => l | Exn _ => data end
   end.
 
-Definition run_lop (data : list json) (o : lop) : otree * list json :=
+Definition is_str (x : json) : bool := match x with JStr _ => true | _ => false end.
+
+Definition run_lop (partial : bool) (data : list json) (o : lop) : otree * list json :=
   match o with
+  | LGet i =>
+      match dl_getitem json json idj data i with
+      | Ok x => if partial && is_str x then (ON "get" [ON "raise" [oexn (EUser 7)]], data) else (ON "get" [lval x], data)
+      | Exn e => (ON "get" [ON "raise" [oexn e]], data)
+      end
+  | LPop i =>
+      (* value = data.pop(i); return to_wrapped_value(value): the element is gone when the converter raises *)
+      match dl_pop json json idj data i with
+      | Ok (x, l) => if partial && is_str x then (ON "pop" [ON "raise" [oexn (EUser 7)]], l) else (ON "pop" [lval x], l)
+      | Exn e => (ON "pop" [ON "raise" [oexn e]], data)
+      end
   | LIterMut k m =>
       let data' := apply_mut data m in
       (* k calls of next(): the first min(k, len) items; when the list was shorter the iterator is exhausted for good *)
       let rest := if Nat.leb k (List.length data) then skipn k data' else [] in
       (ON "itermut" [ON "first" (map lval (firstn k data)); ON "rest" (map lval rest)], data')
   | LLen => (ON "len" [OZ (zlen data)], data)
-  | LGet i => match dl_getitem json json idj data i with
-              | Ok x => (ON "get" [lval x], data) | Exn e => (ON "get" [ON "raise" [oexn e]], data) end
   | LSet i v => match dl_setitem json json idj data i v with
                 | Ok l => (ON "set" [], l) | Exn e => (ON "set" [ON "raise" [oexn e]], data) end
   | LDel i => match dl_delitem json data i with
               | Ok l => (ON "del" [], l) | Exn e => (ON "del" [ON "raise" [oexn e]], data) end
   | LIn v => (ON "in" [obool (py_in v data)], data)
   | LAppend v => (ON "append" [], dl_append json json idj data v)
-  | LPop i => match dl_pop json json idj data i with
-              | Ok (x, l) => (ON "pop" [lval x], l) | Exn e => (ON "pop" [ON "raise" [oexn e]], data) end
   | LIter => (ON "iter" (map lval (dl_iter json json idj data)), data)
   | LKeep p => (ON "keep" [ON "calls" (map lval (keep_calls json json idj idj (lp_eval p) data))],
                 keep_all json json idj idj (lp_eval p) data)
@@ -61,12 +71,12 @@ Definition run_lop (data : list json) (o : lop) : otree * list json :=
                   remove_all json json idj idj (lp_eval p) data)
   end.
 
-Fixpoint run_lops (id : nat) (data : list json) (os : list lop) : list otree :=
+Fixpoint run_lops (partial : bool) (id : nat) (data : list json) (os : list lop) : list otree :=
   match os with
   | [] => []
-  | o :: r => let '(ob, d') := run_lop data o in
-              ON "op" [ob; snapshot (JList id d')] :: run_lops id d' r
+  | o :: r => let '(ob, d') := run_lop partial data o in
+              ON "op" [ob; snapshot (JList id d')] :: run_lops partial id d' r
   end.
 
 Definition run_lcase (c : lcase) : otree :=
-  ON "l" (snapshot (JList (l_id c) (l_items c)) :: run_lops (l_id c) (l_items c) (l_ops c)).
+  ON "l" (snapshot (JList (l_id c) (l_items c)) :: run_lops (l_partial c) (l_id c) (l_items c) (l_ops c)).
